@@ -65,6 +65,10 @@ def run(ctx):
         ctx.tlc_ok(resb, "XSchema_MC4")
     res, states = tlc.dump_states(spec, os.path.join(TLA, "XSchema_MC.cfg"), timeout=2400)
     ctx.tlc_ok(res, "XSchema_MC")
+    # documents grown from the nested-body skeleton (cardinalities while the recursive row re-enters itself)
+    resn, statesn = tlc.dump_states(spec, os.path.join(TLA, "XSchema_Nest.cfg"), timeout=2400)
+    ctx.tlc_ok(resn, "XSchema_Nest")
+    states = states + statesn
     nsim = 400 if ctx.quick else 6000
     res2, sims = tlc.simulate(spec, os.path.join(TLA, "XSchema_Sim.cfg"), num=nsim, depth=13, seed=ctx.seed + 1, timeout=1500)
     ctx.tlc_ok(res2, "XSchema_Sim")
